@@ -332,7 +332,7 @@ class Link:
                     self.send_wamp([3, {"message": "no such realm"}, "wamp.error.no_such_realm"])
                 else:
                     self.joined = True
-                    self.att.joined_at = self.run.env.now()
+                    self.att.joined_at = self.run.now()
                     self.send_wamp([2, 1000 + self.att.n, {"roles": {"broker": {}, "dealer": {}}}])
                     self.run.env.settle()
                     self.run.phase("joined", self.att)
@@ -381,7 +381,7 @@ class Link:
         out = self.att.outcome
         if not self.alive() or self.goodbye_sent:
             return
-        self.att.eol_at = self.run.env.now()
+        self.att.eol_at = self.run.now()
         if out == "lost":
             self.drop(False)
         elif out == "goodbye":
@@ -453,7 +453,12 @@ class Run:
         self.connectfailures = []
         self.wamp_in = []
         self.idle_advances = 0
+        self.t0 = 0.0                 # start of the judged run on the virtual clock (cfg "prelude")
+        self.prelude = None
         self.comp = self._build()
+
+    def now(self):
+        return self.env.now() - self.t0
 
     # -- construction
     def _build(self):
@@ -577,10 +582,10 @@ class Run:
     # -- observation hooks
     def _spy(self, kind, f):
         if f is None or (self.done_f is not None and f is self.done_f):
-            self.done_calls.append((kind, self.env.now(), "none" if f is None else "done"))
+            self.done_calls.append((kind, self.now(), "none" if f is None else "done"))
 
     def _on_attempt(self, idx, factory, waiter):
-        a = Attempt(len(self.attempts), idx, self.env.now(), factory, waiter)
+        a = Attempt(len(self.attempts), idx, self.now(), factory, waiter)
         self.attempts.append(a)
         self.pending.append(a)
 
@@ -591,7 +596,7 @@ class Run:
         n = att.n if att is not None else len(self.attempts)
         self.stop_points.append((name, n))
         if self.choose_stop(name, n):
-            self.stopped = (name, n, self.env.now())
+            self.stopped = (name, n, self.now())
             try:
                 self.stop_result = type(self.comp.stop()).__name__
             except Exception as e:  # noqa
@@ -607,8 +612,8 @@ class Run:
             self.env.escapes.append(e)
             return
         txaio.add_callbacks(self.done_f,
-                            lambda r: self.done.append(("ok", self.env.now(), repr(r), len(self.attempts))),
-                            lambda f: self.done.append(("err", self.env.now(), "%s: %s" % (
+                            lambda r: self.done.append(("ok", self.now(), repr(r), len(self.attempts))),
+                            lambda f: self.done.append(("err", self.now(), "%s: %s" % (
                                 type(f.value).__name__, str(f.value)[:120]), len(self.attempts))))
         self.phase("started", None)
         self.env.settle()
@@ -623,7 +628,7 @@ class Run:
             else:
                 if not att.waiter.done():
                     att.waiter.set_exception(ConnectionRefusedError(111, "scripted"))
-            att.t_end = self.env.now()
+            att.t_end = self.now()
             self.env.settle()
             return
         att.conn = self.env.conn(att.factory)
@@ -638,7 +643,32 @@ class Run:
 
     def drive(self, max_steps=4000):
         horizon = int(self.cfg.get("horizon", 6))
+        pre = self.cfg.get("prelude")
+        if pre:
+            # the SAME component object has run before: one attempt with the outcome `pre`, after which
+            # its start() result completed; the judged run is the next start()
+            real = (self.choose_outcome, self.choose_stop)
+            self.choose_outcome, self.choose_stop = (lambda n, idx: pre), None
+            self.start()
+            self._loop(max_steps, 3)
+            if not self.done or self.pending or len(self.attempts) != 1:
+                raise RuntimeError("harness: prelude run did not finish: %r" % (self.summary(),))
+            self.prelude = {"outcome": pre, "done": [list(d) for d in self.done]}
+            for a in self.attempts:
+                a.factory = a.waiter = a.conn = a.link = a.session = a.main_f = None
+            self.attempts, self.pending, self.done, self.done_calls = [], [], [], []
+            self.events, self.sessions, self.fatal_calls, self.connectfailures = [], [], [], []
+            self.stop_points, self.idle_advances, self.truncated = [], 0, False
+            del self.jitter.calls[:]
+            self.t0 = self.env.now()
+            self.choose_outcome, self.choose_stop = real
         self.start()
+        self._loop(max_steps, horizon)
+        self._obs = self._obs_now()
+        self._teardown()
+        return self
+
+    def _loop(self, max_steps, horizon):
         steps = 0
         while True:
             steps += 1
@@ -653,7 +683,7 @@ class Run:
                     if a.link.pump():
                         progressed = True
                     if a.conn.lost and not a.conn.transport.take() and a.t_end is None:
-                        a.t_end = self.env.now()
+                        a.t_end = self.now()
                         progressed = True
             if self.env.settle():
                 progressed = True
@@ -677,9 +707,6 @@ class Run:
                     continue
             self.env.advance_to(nd)
             self.env.settle()
-        self._obs = self._obs_now()
-        self._teardown()
-        return self
 
     def _teardown(self):
         """drop every reference to the component's objects and collect them, so that errors
@@ -743,7 +770,8 @@ class Run:
             "logged": list(self.logged),
             "loop_errors": self.env.loop_errors(),
             "pending_timers": self.env.next_deadline() is not None,
-            "t_final": round(self.env.now(), 9),
+            "t_final": round(self.now(), 9),
+            "prelude": self.prelude,
         }
 
 
